@@ -98,11 +98,11 @@ Section Lattice.
   Lemma siter_length g t c : length (siter g t c) = length c.
   Proof. induction t; cbn; [reflexivity|]. rewrite sstep_length. exact IHt. Qed.
   Lemma sstep_get g c v : v < length c -> get (sstep g c) v = snode g c v.
-  Proof. intros Hv. unfold HyperBall.get, sync_step. apply tab_nth. exact Hv. Qed.
+  Proof. intros Hv. unfold HBallM.get, sync_step. apply tab_nth. exact Hv. Qed.
   Lemma sstep_get_over g c v : length c <= v -> get (sstep g c) v = dflt.
-  Proof. intros Hv. unfold HyperBall.get, sync_step. apply tab_nth_over. exact Hv. Qed.
+  Proof. intros Hv. unfold HBallM.get, sync_step. apply tab_nth_over. exact Hv. Qed.
   Lemma get_over c v : length c <= v -> get c v = dflt.
-  Proof. intros Hv. unfold HyperBall.get. apply nth_overflow. exact Hv. Qed.
+  Proof. intros Hv. unfold HBallM.get. apply nth_overflow. exact Hv. Qed.
 
   Lemma snode_ge_self g c v : le (get c v) (snode g c v).
   Proof. apply bigjoin_ge_acc. Qed.
@@ -223,7 +223,7 @@ Proof.
   induction t as [|t IH]; cbn; [reflexivity|].
   rewrite <- IH. set (c := sync_iter L join d g t c0).
   unfold sync_step, tab. rewrite map_length. rewrite map_map. apply map_ext.
-  intros v. unfold sync_node, HyperBall.get.
+  intros v. unfold sync_node, HBallM.get.
   assert (Hget : forall w, nth w (map h c) d' = h (nth w c d)).
   { intros w. rewrite <- Hd. apply map_nth. }
   rewrite Hget. generalize (nth v c d) as a. unfold bigjoin.
@@ -246,7 +246,7 @@ Proof.
   - cbn. split.
     + intros H. exists v. split; [apply within_refl | exact H].
     + intros [w [Hw H]]. apply within_0 in Hw. subst. exact H.
-  - cbn [sync_iter]. unfold HyperBall.get at 1, sync_step.
+  - cbn [sync_iter]. unfold HBallM.get at 1, sync_step.
     rewrite tab_nth by (rewrite siter_length; exact Hv).
     unfold sync_node. rewrite Hbig. split.
     + intros [H|[x [Hx Hp]]].
@@ -257,8 +257,8 @@ Proof.
         exists w. split; [eapply within_step; eassumption | exact H].
     + intros [w [Hw H]]. apply within_S in Hw. destruct Hw as [->|[u [Hu Hw]]].
       * left. apply (IH v Hv). exists v. split; [apply within_refl | exact H].
-      * right. exists (HyperBall.get L dflt (sync_iter L join dflt g t c0) u). split.
-        -- apply (in_map (HyperBall.get L dflt (sync_iter L join dflt g t c0))). exact Hu.
+      * right. exists (HBallM.get L dflt (sync_iter L join dflt g t c0) u). split.
+        -- apply (in_map (HBallM.get L dflt (sync_iter L join dflt g t c0))). exact Hu.
         -- apply (IH u (Hwf _ _ Hu)). exists w. split; assumption.
 Qed.
 
@@ -573,12 +573,12 @@ Proof.
   { intros a b. rewrite bits_join_nth. apply orb_true_iff. }
   pose proof (ball_mem (list bool) bits_join [] (fun a => nth w a false = true) g (singletons n) HP) as H.
   rewrite Hlen in H. rewrite (H Hwf t v Hv). clear H. split.
-  - intros [w' [Hwi Hb]]. unfold HyperBall.get, singletons in Hb.
+  - intros [w' [Hwi Hb]]. unfold HBallM.get, singletons in Hb.
     destruct (Nat.lt_ge_cases w' n) as [Hw'|Hw'].
     + rewrite tab_nth in Hb by exact Hw'. unfold singleton in Hb. rewrite tab_nth in Hb by exact Hw.
       apply Nat.eqb_eq in Hb. subst. exact Hwi.
     + rewrite tab_nth_over in Hb by exact Hw'. destruct w; discriminate.
-  - intros Hwi. exists w. split; [exact Hwi|]. unfold HyperBall.get, singletons.
+  - intros Hwi. exists w. split; [exact Hwi|]. unfold HBallM.get, singletons.
     rewrite tab_nth by exact Hw. unfold singleton. rewrite tab_nth by exact Hw. apply Nat.eqb_refl.
 Qed.
 
